@@ -1097,6 +1097,37 @@ func diffGen(g *G, tier string) []M {
 				at = M{}
 				base["a"] = at
 			}
+			if g.Chance(0.5) {
+				// or: an external reference that differs from its twin in one member only
+				if len(asList(at["ExternalReferences"])) == 0 {
+					at["ExternalReferences"] = []any{g.Ref()}
+				}
+				other = Normalize(base).(M)
+				l := asList(other["a"].(M)["ExternalReferences"])
+				e := l[g.Int(len(l))].(M)
+				switch g.Int(5) {
+				case 0:
+					mm := pairsToMap(e["h"])
+					mm[int32(1+g.Int(3))] = "twin"
+					e["h"] = mapToPairs(mm)
+				case 1:
+					e["u"] = asStr(e["u"]) + "/x"
+				case 2:
+					e["c"] = asStr(e["c"]) + "!"
+				case 3:
+					e["a"] = asStr(e["a"]) + "nvd"
+				default:
+					e["t"] = float64(asInt(e["t"]) + 1)
+				}
+				if g.Chance(0.3) {
+					// or the twin next to the original: one node has both, the other only the first
+					other["a"].(M)["ExternalReferences"] = append(asList(Normalize(base).(M)["a"].(M)["ExternalReferences"]), e)
+				}
+				if g.Chance(0.5) {
+					base, other = other, base
+				}
+				break
+			}
 			fld := g.Pick([]string{"Suppliers", "Originators"})
 			if len(asList(at[fld])) == 0 {
 				at[fld] = []any{g.Person(2)}
